@@ -203,10 +203,14 @@ def cases(tier, seed):
         yield {'kind': 'random', 'seed': seed, 'idx': i}
     for i in range({'quick': 24, 'thorough': 400}[tier]):
         yield {'kind': 'region', 'seed': seed, 'idx': i}
+    # deep histories: the same spot refined again and again (6-10 calls, up to 9 levels), where the closure of a finite
+    # disparity needs several hops (l -> l-d -> l-2d)
+    for i in range({'quick': 120, 'thorough': 3000}[tier]):
+        yield {'kind': 'deep', 'seed': seed, 'idx': i}
 
 def run_case(rec, case):
     _state['case'] = case
-    {'exhaustive': _exhaustive, 'random': _random, 'region': _region}[case['kind']](rec, case)
+    {'exhaustive': _exhaustive, 'random': _random, 'region': _region, 'deep': _deep}[case['kind']](rec, case)
 
 def _exhaustive(rec, case):
     from pyiga import bspline, hierarchical
@@ -267,6 +271,41 @@ def _random(rec, case):
     h2 = hs.copy()
     if [set(map(tuple, a)) for a in h2.actfun] != [set(map(tuple, a)) for a in hs.actfun]:
         _bad(rec, 'copy() reproduces the space', hs)
+
+def _deep(rec, case):
+    from pyiga import bspline, hierarchical
+    from verif.gen import rng_for
+    from verif.api import guarded
+    rng = rng_for('C04d', case['seed'], case['idx'])
+    dim = 1 if rng.random() < 0.7 else 2
+    p = int(rng.integers(1, 3)); n0 = int(rng.integers(2, 6)) if dim == 1 else 2
+    disp = [2, 2, 3, 1, np.inf][int(rng.integers(0, 5))]
+    kvs = dim * (bspline.make_knots(p, 0.0, 1.0, n0),)
+    hs = hierarchical.HSpace(kvs, truncate=bool(rng.integers(0, 2)), disparity=disp)
+    steps = int(rng.integers(6, 11)) if dim == 1 else int(rng.integers(4, 7))
+    pt = rng.uniform(0.05, 0.95, dim)
+    hist = []
+    _state['case'] = dict(case, dim=dim, p=p, n0=n0, disparity=None if not np.isfinite(disp) else int(disp), steps=steps, point=pt.tolist())
+    _state['heavy'] = False
+    for s_ in range(steps):
+        L = hs.numlevels
+        if L >= 9: break
+        # the active cell containing the point (mostly), sometimes a random active cell of the finest level
+        target = None
+        for l in reversed(range(L)):
+            nc = n0 * 2 ** l
+            c = tuple(min(int(x * nc), nc - 1) for x in pt)
+            if c in set(map(tuple, hs.active_cells(l))): target = (l, c); break
+        if target is None or rng.random() < 0.15:
+            l = L - 1; act = sorted(map(tuple, hs.active_cells(l)))
+            target = (l, act[int(rng.integers(0, len(act)))])
+        marks = {target[0]: [target[1]]}
+        hist.append({str(target[0]): [list(target[1])]})
+        ok, r = guarded(rec, dict(_state['case'], history=hist), {'route': 'refine', 'family': 'deep'}, hs.refine, marks)
+        if not ok: return
+    _state['case'] = dict(_state['case'], history=hist)
+    rec.case(_state['case'], nontrivial=hs.numlevels >= 4, key=[[sorted(map(list, a)) for a in hs.actfun], p, _state['case']['disparity']])
+    guarded(rec, _state['case'], {'route': 'final_state_checks'}, check_state, rec, hs, hs.numlevels <= 5)
 
 def _region(rec, case):
     from pyiga import bspline, hierarchical
